@@ -360,8 +360,10 @@ def r17f(ctx):
                     defs = [a for a in ast.walk(l) if isinstance(a, ast.Assign) and isinstance(a.targets[0], ast.Name) and a.targets[0].id == t]
                     from_call = [a for a in defs if "tighten_bounds()" in ast.unparse(a.value)]
                     # another definition that sets it under a comparison of the item's bounds with the stored key refreshes stale keys
-                    refresh = [a for a in defs if a not in from_call and any(".key" in ast.unparse(t2) and "bounds()" in ast.unparse(t2)
-                                                                             for t2, _p in flatten_conditions(dominating_conditions(a, stop=l)))]
+                    refresh = [a for a in defs if a not in from_call and isinstance(a.value, ast.Constant) and a.value.value is True
+                               and any(_p and isinstance(t2, ast.Compare) and isinstance(t2.ops[0], ast.NotEq)
+                                       and ".key" in ast.unparse(t2) and "bounds()" in ast.unparse(t2)
+                                       for t2, _p in flatten_conditions(dominating_conditions(a, stop=l)))]
                     return bool(from_call) and not refresh
                 flag = [t for t, pol in facts if pol and pure_progress_flag(t)]
                 if flag:
